@@ -159,6 +159,21 @@ THEOREMS.update({
     'C18_cli_args_unknown_class_is_type_error': 'a class name no module defines ends the class resolution with TypeError "The given object is not a class."',
     'C18_cli_args_required_args_table': 'the required-argument table never holds the empty marker nor self',
 })
+_PARSER_PLAN = {
+    "calculate_scores": ["fields", "dests_derived", "dests_distinct", "seed", "coordinates", "params"],
+    "select_next_plate": ["fields", "dests_derived", "dests_distinct", "seed", "params"],
+    "train_model": ["fields", "dests_derived", "dests_distinct", "seed", "coordinates", "params"],
+    "prepare_retrospective_simulation": ["fields", "dests_derived", "dests_distinct", "seed", "params", "fraction"],
+    "reveal_plate": ["fields", "dests_derived", "dests_distinct"],
+    "extract_screen_metadata": ["fields", "dests_derived", "dests_distinct"],
+    "calculate_distance_matrix": ["fields", "dests_derived", "dests_distinct", "coordinates", "params"],
+    "evaluate_model": ["fields", "dests_derived", "dests_distinct"],
+    "analyze_model_evaluation": ["fields", "dests_derived", "dests_distinct"],
+}
+THEOREMS.update(c18_args.parser_theorems("C18", _PARSER_PLAN))
+THEOREMS['C18_parser_seed_default_draws'] = ('for any table with Cli.seed_declared: on the default --seed the generator construction of the wrappers '
+                                             '(Cli.prng_of_seed, linked to get_prng_from_seed_argument) succeeds')
+EXPLANATION += c18_args.parser_explanation(sorted(_PARSER_PLAN))
 EXPLANATION += c18_args.explanation(
     ["str_to_bool", "cast", "kv", "get_args", "cmd", "introspection"],
     "argument_parsing.str_to_bool / cast_dict_to_type / KVAppendAction.__call__, introspection.get_class / create_instance / "
@@ -1118,6 +1133,8 @@ def extra(tier):
     missing = [o for o in EXPECTED_OPS if o not in _SEEN]
     hollow = [o for o in MUST_DRAW if not _SEEN.get(o)]
     out.append(("operations-covered", not missing and not hollow, "missing=%s never-drew=%s" % (missing, hollow)))
+    # 4. the hand-written field tables of Model/Cli.v say what the configurations of the translated main() / get_args() say
+    out += c18_args.extra_parser_tables()
     return out
 
 
